@@ -33,7 +33,8 @@ CONSTANTS
   TimerEp      \* the endpoint whose inactivity timer is modelled ("none": timers off)
 
 FeatAll == {"close", "sessclose", "fault", "blockaccept", "blockread", "swrite", "lazy", "gates"}
-DevAll  == {"OpenCheckThenAct", "CountAfterPublish", "TimerCheckThenAct", "AddConnPublish", "NoticeFailLeak"}
+DevAll  == {"OpenCheckThenAct", "CountAfterPublish", "TimerCheckThenAct", "AddConnPublish", "AddConnNoMutex",
+            "NoticeFailLeak", "RecvCheckThenAct"}
 
 E == {"c", "s"}
 Peer(e) == IF e = "c" THEN "s" ELSE "c"
@@ -41,6 +42,7 @@ Conns == 1..NC
 Streams == 1..NS
 NoticeSid == 0          \* stands for stream id 0xffffffff of the session-closing notice
 Nil == [sid |-> -1]
+Checked == [sid |-> -2]   \* dpend marker: the closed-check of recvDataFromRemote was passed, the frame is still at the head
 
 VARIABLES
   \* ---- network
@@ -49,7 +51,7 @@ VARIABLES
   deplexOn,   \* deplexOn[c][e]: e runs a deplex goroutine on c
   dpend,      \* dpend[c][e]: frame of a NEW stream that e's deplex on c has published but not yet counted/stored
   \* ---- switchboard
-  pool,       \* pool[e]: connection ids stored in e's conns map
+  pool,       \* pool[e]: e's conns map, id -> connection (0 = no entry); ids and connections are both numbered 1..NC
   poolCount,  \* poolCount[e]: connsCount as published
   broken,     \* broken[e]: switchboard.broken
   endClosed,  \* endClosed[c][e]: e has closed its end of c
@@ -79,7 +81,7 @@ VARIABLES
   aclosed,    \* aclosed[e][s]: the application at e called Close on s (ghost)
   timerBad,   \* ghost: the inactivity timer closed a session that had an open stream
   openpc,     \* progress of the client's OpenStream call: [pc, id]
-  addpc,      \* connection whose AddConnection call is between its two steps (0 = none)
+  addpc,      \* addpc[c]: id loaded by the AddConnection(c) call that is between its two steps (0 = none)
   lastEv      \* observable outcome of the last step (behaviour export / trace binding)
 
 NetV  == <<net, connUp, deplexOn, dpend>>
@@ -102,7 +104,7 @@ Init ==
   /\ connUp = [c \in Conns |-> TRUE]
   /\ deplexOn = [c \in Conns |-> [e \in E |-> ~(e = "c" /\ c \in LateConn)]]
   /\ dpend = [c \in Conns |-> [e \in E |-> Nil]]
-  /\ pool = [e \in E |-> IF e = "c" THEN Conns \ LateConn ELSE Conns]
+  /\ pool = [e \in E |-> [i \in Conns |-> IF e = "c" /\ i \in LateConn THEN 0 ELSE i]]
   /\ poolCount = [e \in E |-> IF e = "c" THEN NC - Cardinality(LateConn) ELSE NC]
   /\ broken = [e \in E |-> FALSE]
   /\ endClosed = [c \in Conns |-> [e \in E |-> FALSE]]
@@ -132,7 +134,7 @@ Init ==
   /\ aclosed = [e \in E |-> [s \in Streams |-> FALSE]]
   /\ timerBad = FALSE
   /\ openpc = [pc |-> "idle", id |-> 0]
-  /\ addpc = 0
+  /\ addpc = [c \in Conns |-> 0]
   /\ lastEv = [a |-> "Init"]
 
 -----------------------------------------------------------------------------
@@ -174,12 +176,14 @@ SweepOn(S, e, why) ==
                  !.tab[e] = TLCEval([s \in Streams |-> IF s \in live THEN "absent" ELSE @[s]]),
                  !.count[e] = @ - Cardinality(live)]
 
+PoolConns(e) == {pool[e][i] : i \in Conns} \ {0}
+
 \* closeAll: mark the switchboard broken, close every pooled connection
 CloseAllOn(S, e) ==
   IF S.broken[e] THEN S
   ELSE [S EXCEPT !.broken[e] = TRUE,
                  !.poolCount[e] = 0,
-                 !.endClosed = TLCEval([c \in Conns |-> IF c \in pool[e] THEN [@[c] EXCEPT ![e] = TRUE] ELSE @[c]])]
+                 !.endClosed = TLCEval([c \in Conns |-> IF c \in PoolConns(e) THEN [@[c] EXCEPT ![e] = TRUE] ELSE @[c]])]
 
 \* passiveClose: closeSession and, only if that was the first close, closeAll
 PassiveOn(S, e, why) == IF S.sclosed[e] THEN S ELSE CloseAllOn(SweepOn(S, e, why), e)
@@ -198,9 +202,12 @@ AfterCountZero(S, e) ==
 \* In both error cases the session ends up passively closed (by send itself or by its caller).
 CanPick(e) == ~broken[e] /\ poolCount[e] > 0
 Picks(e) == IF CanPick(e) THEN 1..poolCount[e] ELSE {1}
-SendOutcome(e, c) ==
+\* the caller names an id below the published count; the frame travels on the connection stored under it
+ConnOf(e, id) == pool[e][id]
+SendOutcome(e, id) ==
+  LET c == ConnOf(e, id) IN
   IF ~CanPick(e) THEN "broken"
-  ELSE IF c \notin pool[e] THEN "broken"       \* id published before the entry exists (AddConnPublish)
+  ELSE IF c = 0 THEN "broken"       \* an id without an entry (AddConnPublish / AddConnNoMutex)
   ELSE IF ~connUp[c] \/ endClosed[c][e] \/ endClosed[c][Peer(e)] THEN "werr"
   ELSE "ok"
 
@@ -250,7 +257,7 @@ HasHandle(e, s) == s \in handles[e]
 SendDataFrame(e, s, c, left) ==
   LET out == SendOutcome(e, c) IN
   /\ IF out = "ok"
-       THEN /\ net' = [net EXCEPT ![c][e] = Append(@, Frame(s, wseq[e][s], 0, wcount[e][s] + 1))]
+       THEN /\ net' = [net EXCEPT ![ConnOf(e, c)][e] = Append(@, Frame(s, wseq[e][s], 0, wcount[e][s] + 1))]
             /\ wcount' = [wcount EXCEPT ![e][s] = @ + 1]
             /\ wbusy' = [wbusy EXCEPT ![e][s] = left]
             /\ lastEv' = [a |-> "Write", ok |-> TRUE, e |-> e, s |-> s, c |-> c, done |-> (left = 0)]
@@ -286,7 +293,7 @@ CloseStream(e, s, c) ==
                 S0 == [Snap EXCEPT !.stClosed[e][s] = TRUE, !.rpclosed[e][s] = TRUE] IN
             /\ wseq' = [wseq EXCEPT ![e][s] = @ + 1]
             /\ IF out = "ok"
-                 THEN /\ net' = [net EXCEPT ![c][e] = Append(@, Frame(s, wseq[e][s], 1, 0))]
+                 THEN /\ net' = [net EXCEPT ![ConnOf(e, c)][e] = Append(@, Frame(s, wseq[e][s], 1, 0))]
                       /\ Apply(AfterCountZero([S0 EXCEPT !.tab[e][s] = "tomb", !.count[e] = @ - 1], e))
                       /\ lastEv' = [a |-> "CloseStream", ok |-> TRUE, e |-> e, s |-> s, c |-> c]
                  ELSE \* the send failed: the call returns the error before the tombstone / count step
@@ -342,16 +349,16 @@ RecvFrame(S, e, f) ==
 \* Deliver: e's deplex goroutine on connection c reads the head frame written by the peer
 Deliver(c, e) ==
   LET p == Peer(e)  f == Head(net[c][p]) IN
-  /\ net[c][p] # <<>> /\ connUp[c] /\ deplexOn[c][e] /\ ~endClosed[c][e] /\ dpend[c][e] = Nil
+  /\ net[c][p] # <<>> /\ connUp[c] /\ deplexOn[c][e] /\ ~endClosed[c][e] /\ dpend[c][e] \in {Nil, Checked}
   /\ net' = [net EXCEPT ![c][p] = Tail(@)]
   /\ lastEv' = [a |-> "Deliver", c |-> c, e |-> e]
   /\ IF f.cl = 2
        THEN /\ Apply(PassiveOn(Snap, e, "notice"))        \* session-closing notice
-            /\ UNCHANGED <<acceptQ, RdV, dpend>>
-       ELSE IF sclosed[e] \/ tab[e][f.sid] = "tomb"
-         THEN UNCHANGED <<SessV, acceptQ, RdV, dpend>>   \* dropped: broken session / id seen and closed
+            /\ UNCHANGED <<acceptQ, RdV>> /\ dpend' = [dpend EXCEPT ![c][e] = Nil]
+       ELSE IF (sclosed[e] /\ dpend[c][e] # Checked) \/ tab[e][f.sid] = "tomb"
+         THEN UNCHANGED <<SessV, acceptQ, RdV>> /\ dpend' = [dpend EXCEPT ![c][e] = Nil]   \* dropped: broken session / id seen and closed
          ELSE IF tab[e][f.sid] = "open"
-           THEN RecvFrame(Snap, e, f) /\ UNCHANGED <<acceptQ, dpend>>
+           THEN RecvFrame(Snap, e, f) /\ UNCHANGED acceptQ /\ dpend' = [dpend EXCEPT ![c][e] = Nil]
            ELSE \* new stream: create, publish in the table and the accept queue ...
                 /\ acceptQ' = [acceptQ EXCEPT ![e] = Append(@, f.sid)]
                 \* ... the payload (and, deviation CountAfterPublish, the count) follow after the table lock is released
@@ -362,8 +369,17 @@ Deliver(c, e) ==
                 /\ UNCHANGED RdV
   /\ UNCHANGED <<connUp, deplexOn, pool, handles, await, WrV, AppV, nextId, timerDecided, openpc, addpc>>
 
+\* deviation RecvCheckThenAct: recvDataFromRemote tests Session.closed before it takes the table lock
+RecvCheck(c, e) ==
+  /\ "RecvCheckThenAct" \in Dev
+  /\ net[c][Peer(e)] # <<>> /\ connUp[c] /\ deplexOn[c][e] /\ ~endClosed[c][e] /\ dpend[c][e] = Nil
+  /\ ~sclosed[e] /\ Head(net[c][Peer(e)]).cl # 2
+  /\ dpend' = [dpend EXCEPT ![c][e] = Checked]
+  /\ lastEv' = [a |-> "RecvCheck", c |-> c, e |-> e]
+  /\ UNCHANGED <<net, connUp, deplexOn, pool, SessV, AccV, WrV, RdV, AppV, nextId, timerDecided, openpc, addpc>>
+
 DeliverB(c, e) ==
-  /\ dpend[c][e] # Nil
+  /\ dpend[c][e] \notin {Nil, Checked}
   /\ dpend' = [dpend EXCEPT ![c][e] = Nil]
   /\ RecvFrame(IF "CountAfterPublish" \in Dev THEN [Snap EXCEPT !.count[e] = @ + 1] ELSE Snap, e, dpend[c][e])
   /\ lastEv' = [a |-> "DeliverB", c |-> c, e |-> e]
@@ -441,7 +457,7 @@ UserClose(e) ==
 SessCloseB(e, c) ==
   /\ closing[e]
   /\ IF SendOutcome(e, c) = "ok"
-       THEN /\ net' = [net EXCEPT ![c][e] = Append(@, Frame(NoticeSid, 0, 2, 0))]
+       THEN /\ net' = [net EXCEPT ![ConnOf(e, c)][e] = Append(@, Frame(NoticeSid, 0, 2, 0))]
             /\ Apply([CloseAllOn(Snap, e) EXCEPT !.closing[e] = FALSE])
             /\ lastEv' = [a |-> "SessCloseB", e |-> e, c |-> c, ok |-> TRUE]
        ELSE \* deviation NoticeFailLeak: Close returns the error without closeAll (the nested passiveClose
@@ -500,25 +516,28 @@ TimerClose(e) ==
 
 -----------------------------------------------------------------------------
 (* switchboard.addConn on the client                                        *)
-\* first step: store the entry (repaired code) / publish the count (deviation AddConnPublish)
+\* first step (under addConnM): load the count, store the entry under the next id.
+\* deviation AddConnPublish: publish the count first. deviation AddConnNoMutex: adders are not serialised.
 AddConnFirst(c) ==
-  /\ c \in LateConn /\ addpc = 0 /\ c \notin pool["c"] /\ c = poolCount["c"] + 1 /\ ~broken["c"]
-  /\ addpc' = c
+  /\ c \in LateConn /\ addpc[c] = 0 /\ c \notin PoolConns("c") /\ ~broken["c"]
+  /\ "AddConnNoMutex" \in Dev \/ \A d \in Conns : addpc[d] = 0
+  /\ poolCount["c"] < NC
+  /\ addpc' = [addpc EXCEPT ![c] = poolCount["c"] + 1]
   /\ IF "AddConnPublish" \in Dev
        THEN Apply([Snap EXCEPT !.poolCount["c"] = @ + 1]) /\ UNCHANGED pool
-       ELSE pool' = [pool EXCEPT !["c"] = @ \cup {c}] /\ UNCHANGED SessV
+       ELSE pool' = [pool EXCEPT !["c"][poolCount["c"] + 1] = c] /\ UNCHANGED SessV
   /\ lastEv' = [a |-> "AddConnFirst", c |-> c]
   /\ UNCHANGED <<NetV, AccV, WrV, RdV, AppV, nextId, timerDecided, openpc>>
 
 \* second step: the other half, then the deplex goroutine starts
-AddConnSecond ==
-  /\ addpc # 0
-  /\ addpc' = 0
+AddConnSecond(c) ==
+  /\ addpc[c] # 0
+  /\ addpc' = [addpc EXCEPT ![c] = 0]
   /\ IF "AddConnPublish" \in Dev
-       THEN pool' = [pool EXCEPT !["c"] = @ \cup {addpc}] /\ UNCHANGED SessV
-       ELSE Apply([Snap EXCEPT !.poolCount["c"] = IF broken["c"] THEN @ ELSE @ + 1]) /\ UNCHANGED pool
-  /\ deplexOn' = [deplexOn EXCEPT ![addpc]["c"] = TRUE]
-  /\ lastEv' = [a |-> "AddConn", c |-> addpc]
+       THEN pool' = [pool EXCEPT !["c"][addpc[c]] = c] /\ UNCHANGED SessV
+       ELSE Apply([Snap EXCEPT !.poolCount["c"] = IF broken["c"] \/ @ >= NC THEN @ ELSE @ + 1]) /\ UNCHANGED pool
+  /\ deplexOn' = [deplexOn EXCEPT ![c]["c"] = TRUE]
+  /\ lastEv' = [a |-> "AddConn", c |-> c]
   /\ UNCHANGED <<net, connUp, dpend, AccV, WrV, RdV, AppV, nextId, timerDecided, openpc>>
 
 -----------------------------------------------------------------------------
@@ -528,7 +547,7 @@ GateSteps ==
   \/ OpenRegister \/ OpenCount
   \/ \E c \in Conns, e \in E : DeliverB(c, e)
   \/ \E e \in E : TimerClose(e)
-  \/ AddConnSecond
+  \/ \E c \in Conns : AddConnSecond(c)
 
 \* steps the running goroutines take on their own (no environment decision involved)
 Internal ==
@@ -545,7 +564,7 @@ Env ==
   \/ \E e \in E, s \in Streams, k \in 1..MaxWrite, c \in Conns :
         c \in Picks(e) /\ (e = "c" \/ "swrite" \in Feat) /\ WriteCall(e, s, k, c)
   \/ \E e \in E, s \in Streams, c \in Conns : c \in Picks(e) /\ CloseStream(e, s, c)
-  \/ \E c \in Conns, e \in E : Deliver(c, e)
+  \/ \E c \in Conns, e \in E : Deliver(c, e) \/ RecvCheck(c, e)
   \/ \E e \in E, s \in Streams : ReadNow(e, s) \/ ReadBlock(e, s)
   \/ AcceptNow \/ AcceptBlock
   \/ \E e \in E : UserClose(e)
@@ -573,7 +592,7 @@ Spec == Init /\ [][Next]_vars
 \* a frame is still on its way to e if e reads that connection, or will once it has added it
 InFlightTo(e) == \E c \in Conns : /\ net[c][Peer(e)] # <<>> /\ connUp[c] /\ ~endClosed[c][e]
                                    /\ \/ deplexOn[c][e]
-                                      \/ (e = "c" /\ c \in LateConn /\ c \notin pool["c"] /\ ~broken["c"])
+                                      \/ (e = "c" /\ c \in LateConn /\ c \notin PoolConns("c") /\ ~broken["c"])
 Settled == /\ ~ENABLED Internal /\ ~ENABLED GateSteps
            /\ \A e \in E : ~InFlightTo(e)
 
@@ -612,8 +631,13 @@ ClosedStreamInv ==
 \* C12: count of active streams = number of open streams whenever no call is half-way
 CountInv ==
   \A e \in E :
-    (~sclosed[e] /\ (e = "c" => openpc.pc = "idle") /\ \A c \in Conns : dpend[c][e] = Nil) =>
+    (~sclosed[e] /\ (e = "c" => openpc.pc = "idle") /\ \A c \in Conns : dpend[c][e] \in {Nil, Checked}) =>
         count[e] = Cardinality(OpenSet(e))
+
+\* C12: a closed session has swept its streams: whatever is still in the table is closed, with a closed buffer
+\* (a stream whose closing frame could not be sent stays in the table, closed)
+ClosedHasNoStreams ==
+  \A e \in E : (sclosed[e] /\ ~timerDecided[e]) => \A s \in OpenSet(e) : stClosed[e][s] /\ rpclosed[e][s]
 
 \* C12: a session is closed by its inactivity timer only while it has no open stream
 TimerOnlyWhenIdle == ~timerBad
@@ -632,7 +656,7 @@ NonceInv ==
 Teardown ==
   (Settled /\ \E e \in E : sclosed[e]) =>
      /\ \A e \in E : sclosed[e]
-     /\ \A e \in E, c \in Conns : c \in pool[e] => endClosed[c][e]
+     /\ \A e \in E, c \in Conns : c \in PoolConns(e) => endClosed[c][e]
      /\ \A e \in E, s \in Streams : ~rwait[e][s]
      /\ ~await["s"]
 
